@@ -1,6 +1,7 @@
 //! Engine binary `e_conc`: one module per property. See /verif/DESIGN.md.
 use vmon::report::parse_args;
 
+mod engine;
 mod c03;
 mod c04;
 mod c24;
